@@ -31,6 +31,19 @@ type c20Reg struct {
 }
 
 var c20CondTexts = []string{"a = :b", "b = :a", " a = :b ", "a  =  :b", "A = :b", "a = :bb", "a = :b AND b = :a", "b = :a AND a = :b"}
+
+// keyword texts in two letter cases: different texts (a registration under one never fires for the other). The
+// built-in interpreter refuses the lower-case forms, so without a callback such a request may also be rejected
+var c20KeywordTexts = []string{"a = :b AND b = :a", "a = :b and b = :a", "a IN (:b)", "a in (:b)", "a BETWEEN :b AND :b", "a between :b and :b"}
+
+func c20LowerKeyword(text string) bool {
+	for _, t := range tokenize(text) {
+		if refmodelIsKw(t) && t != strings.ToUpper(t) {
+			return true
+		}
+	}
+	return false
+}
 var c20UpdTexts = []string{"SET x = :y", "SET y = :x", " SET x = :y", "SET  x = :y", "set x = :y"}
 
 func c20Pool() []c20Reg {
@@ -39,6 +52,11 @@ func c20Pool() []c20Reg {
 		for _, k := range []string{"key", "filter", "conditional"} {
 			for _, txt := range c20CondTexts[:5] {
 				out = append(out, c20Reg{t, k, txt})
+			}
+			if t == "tba" && k != "conditional" {
+				for _, txt := range c20KeywordTexts {
+					out = append(out, c20Reg{t, k, txt})
+				}
 			}
 		}
 		for _, txt := range c20UpdTexts[:3] {
@@ -58,6 +76,11 @@ func c20Requests() []c20Req {
 		for _, k := range []string{"key", "filter", "conditional"} {
 			for _, txt := range c20CondTexts {
 				out = append(out, c20Req{t, k, txt})
+			}
+			if t == "tba" {
+				for _, txt := range c20KeywordTexts[1:] {
+					out = append(out, c20Req{t, k, txt})
+				}
 			}
 		}
 		for _, txt := range c20UpdTexts {
@@ -421,6 +444,9 @@ func (p *c20) runSeq(x *res, adapter string, regs []int, reqs []c20Req, nativeOn
 				if cbVerdict {
 					wantN = 1
 				}
+				if !cbVerdict && c20LowerKeyword(req.text) && (got.Class == adapt.ClsValidation || got.Class == adapt.ClsRejectPanic) {
+					break // no callback: the built-in interpreter refuses keywords in lower case
+				}
 				if got.Class != adapt.ClsOK || len(got.Items) != wantN {
 					x.viol("verdict-not-used", req.kind+seqTag, fmt.Sprintf("[%s] %s %q: class %s, %d items; expected %d (callback fired: %v; built-in result false)", adapter, req.kind, req.text, got.Class, len(got.Items), wantN, cbVerdict), wit)
 				}
@@ -428,6 +454,9 @@ func (p *c20) runSeq(x *res, adapter string, regs []int, reqs []c20Req, nativeOn
 				want := adapt.ClsCondFailed
 				if cbVerdict {
 					want = adapt.ClsOK
+				}
+				if !cbVerdict && c20LowerKeyword(req.text) && (got.Class == adapt.ClsValidation || got.Class == adapt.ClsRejectPanic) {
+					break
 				}
 				if got.Class != want {
 					x.viol("verdict-not-used", req.kind+seqTag, fmt.Sprintf("[%s] conditional put %q: class %s, expected %s (callback fired: %v)", adapter, req.text, got.Class, want, cbVerdict), wit)
